@@ -508,6 +508,8 @@ class FunctionParser(BaseParser):
             else:
                 optional_name = k
 
+    forward_type_slots = ("position_type", "return_type")
+
     def resolve_forward_refs(self, local_vars=None, ignore_errors: bool = True):
         resolved = super().resolve_forward_refs(
             local_vars=local_vars, ignore_errors=ignore_errors
